@@ -37,6 +37,8 @@ def run(ctx):
     T = get_tables(ctx)
     RR.check_regions(ctx, 'R14.1', quick=(ctx.tier == 'quick'))
     RR.check_quote_agreement(ctx, 'R14.6')
+    ctx.rule('R14.8', 'left contexts: no other rule consumes (part of) the opener of a comment or quoted region that begins after the rule\'s own start', floor=100)
+    RR.check_opener_left_contexts(ctx, 'R14.8')
     RL.check_initialisation(ctx, 'R14.3', T)
     ctx.rule('R14.7', 'the lexer sees the whole input at once: a body cannot be cut at a chunk boundary', floor=3)
     RL.check_whole_text(ctx, 'R14.7')
